@@ -707,7 +707,7 @@ M('zmq-D52-shape-client-key-concatenated', ['C06'], Z, '''                full_i
 M('zmq-D53-shape-wall-clock', ['C06'], Z, "from time import monotonic_ns as time_ns, sleep", "from time import time_ns, sleep", ['C06.R13'])
 M('zmq-eph-close-withdraws-permission', ['C05'], Z, "                            if not client.ephemeral or str(client_id) in self.outs_required:  # a listener leaving changes nothing for the others and must not hold the publisher up, unless it is an output the publisher has to wait for\n                                do_send = False", "                            if True:\n                                do_send = False", ['C05.R11'])
 M('zmq-eph-id-in-balanced-max', ['C05'], Z, "                        out_prev_id if ephemeral else max(out_prev_id, prev_id),", "                        max(out_prev_id, prev_id),", ['C05.R11'])
-M('zmq-D54-shape-eph-close-keeps-partial', ['C05', 'C02', 'C01'], Z, "                            if sender.got == 'some':  # the rest of a half received set will not come any more, and must not be completed by the next publisher on this address (a synchronized consumer's requests fast-forward that one to exactly this id)\n                                sender.new_recv()\n", "", ['C05.R11', 'C02.R13', 'C01.R15'])
+M('zmq-D54-shape-eph-close-keeps-partial', ['C05', 'C02', 'C01'], Z, "                                sender.new_recv()\n\n                                if balance:  # the half set was what locked", "                                if balance:  # the half set was what locked", ['C05.R11', 'C02.R13', 'C01.R15'])
 M('zmq-D72-shape-only-eph-close-drops-partial', ['C02', 'C01'], Z, "                            if sender.got == 'some':  # the rest of a half received set will not come any more", "                            if sender_eph and sender.got == 'some':  # the rest of a half received set will not come any more", ['C02.R13', 'C01.R15'])
 M('zmq-only-sync-close-drops-partial', ['C05'], Z, "                            if sender.got == 'some':  # the rest of a half received set will not come any more", "                            if not sender_eph and sender.got == 'some':  # the rest of a half received set will not come any more", ['C05.R11'])
 
@@ -778,3 +778,6 @@ M('cli-D78-shape-http-output-port-not-reserved', ['C12'], CLI, "        for outp
 M('cli-D78-shape-port-option-not-reserved', ['C12'], CLI, "        if isinstance(port := config.get(\"port\"), int) and not isinstance(port, bool):  # the http server port of Webvis / REST given as an option\n            max_port = max(max_port, port)\n", "", ['C12.R13'])
 M('zmq-D80-shape-empty-topic-accepted', ['C02', 'C03', 'C09'], Z, "            if '' in topicmsgs:  # its frame would be the same bytes as the topics message that closes a set: a receiver takes it for that, the set never completes and every set after it is lost as well\n                raise ValueError(\"a topic name can not be empty\")\n\n", "", ['C02.R5', 'C03.R11', 'C09.R14'])
 M('zmq-D82-shape-unlink-by-name', ['C06'], Z, "                        if os.stat(fnm).st_ino == self.ipc_inodes.get(fnm):  # still the file we bound, not the one of a new instance on this address\n                            os.unlink(fnm)\n", "                        os.unlink(fnm)\n", ['C06.R17'])
+
+M('zmq-D83-shape-close-keeps-balanced-lock', ['C06'], Z, "                                if balance:  # the half set was what locked the balanced receiver onto this source, the others are listened to again\n                                    for s in sendervs:\n                                        if s.sub not in poller:\n                                            poller.register(s.sub, zmq.POLLIN)\n", "", ['C06.R18'])
+M('zmq-D83-shape-entry-keeps-balanced-lock', ['C06'], Z, "                    if s.sub not in poller:\n                        poller.register(s.sub, zmq.POLLIN)  # was unregistered when it completed, or when", "                    if s.got_all:\n                        poller.register(s.sub, zmq.POLLIN)  # was unregistered when it completed, or when", ['C06.R18'])
